@@ -13,7 +13,7 @@ inline const char* mtname(MODULE_TYPE t) { return t == FFT64 ? "fft64" : "ntt120
 
 // small deterministic integers, |v| <= bound, never all zero
 inline int64_t small_val(uint64_t idx, int64_t bound) {
-  uint64_t h = (idx + 1) * 0x9E3779B97F4A7C15ull;
+  uint64_t h = (idx + 1 + 7919 * gen_salt()) * 0x9E3779B97F4A7C15ull;
   h ^= h >> 29;
   int64_t v = (int64_t)(h % (uint64_t)(2 * bound + 1)) - bound;
   return v;
